@@ -240,6 +240,40 @@ func tgEval(cs tgCase) []core.Finding {
 	})
 }
 
+// tgVerdict: "104" | "accepted" | another error, of the project printed from cs.
+func tgVerdict(cs tgCase) (v string) {
+	defer func() {
+		if r := recover(); r != nil {
+			v = "panic"
+		}
+	}()
+	root := jschema.New("@main", tgText(cs.Types["0"], cs.Forms["0"]))
+	root.AreKeysOptionalByDefault = cs.OptDef
+	for k := range cs.Types {
+		if k == "0" {
+			continue
+		}
+		var i int
+		fmt.Sscan(k, &i)
+		ty := jschema.New(tgName(i), tgText(cs.Types[k], cs.Forms[k]))
+		ty.AreKeysOptionalByDefault = cs.OptDef
+		if err := root.AddType(tgName(i), ty); err != nil {
+			return "addtype-error"
+		}
+	}
+	if err := root.AddType("@main", root); err != nil {
+		return "addtype-error"
+	}
+	err := root.Check()
+	switch {
+	case err == nil:
+		return "accepted"
+	case errCode(err) == 104 || strings.Contains(err.Error(), "infinite type recursion"):
+		return "104"
+	}
+	return fmt.Sprintf("error-%d", errCode(err))
+}
+
 func tgDump(cs tgCase) string {
 	var sb strings.Builder
 	var names []string
@@ -332,6 +366,27 @@ func runC06(c *core.Ctx) error {
 			cr.Rev = true
 			c.CountEval(1)
 			c.Report(cr, tgEval(cr))
+			// a choice that carries an explicit `type: "mixed"` says the same thing twice (TypeGraph.tla, mode "mixed"):
+			// the verdict is that of the same graph without the annotation
+			hasMixed := false
+			plain := tgCase{Types: map[string][]tgProp{}, Forms: cs.Forms, OptDef: cs.OptDef, Finite: cs.Finite, SelfReq: cs.SelfReq, Cycle: cs.Cycle}
+			for k, ps := range cs.Types {
+				plain.Types[k] = []tgProp{}
+				for _, p := range ps {
+					if p.K == "choice" && p.M == "mixed" {
+						hasMixed = true
+						p.M = "plain"
+					}
+					plain.Types[k] = append(plain.Types[k], p)
+				}
+			}
+			if hasMixed {
+				c.CountEval(1)
+				a, b := tgVerdict(cs), tgVerdict(plain)
+				if a != b {
+					c.Report(cs, []core.Finding{{Class: "recursion:mixed-annotation-changes-the-verdict", What: fmt.Sprintf("with `type: \"mixed\"` on the choices Check() = %s, without it %s\n%s", a, b, tgDump(cs))}})
+				}
+			}
 			// nor on the name under which the root is referred to, when it is registered under two
 			if cs.Cycle && i%2 == 0 {
 				ca := cs
